@@ -9,12 +9,18 @@ import (
 
 	"verif/harness/h"
 
+	"github.com/itchio/lake"
+
 	"pgregory.net/rapid"
 )
 
 type Spec struct {
 	Pair h.Pair `json:"pair"`
 	Comp h.Comp `json:"comp"`
+	// Src, when not empty, makes the differ read the new build through readers
+	// that slice their reads and (first byte odd) return their last bytes
+	// together with io.EOF, as zip-backed and network pools do.
+	Src []byte `json:"src,omitempty"`
 }
 
 // GenComp draws a compression setting over all registered algorithms and the
@@ -51,7 +57,16 @@ func check(s Spec) h.Result {
 	}
 	cl := s.Pair.Classes()
 	cl = append(cl, "comp:"+[]string{"none", "brotli", "gzip"}[s.Comp.Algo])
-	df, err := h.Diff(od, nd, s.Comp, nil)
+	var dopts *h.DiffOpts
+	if len(s.Src) > 0 {
+		cl = append(cl, "source:sliced-reads")
+		if s.Src[0]&1 == 1 {
+			cl = append(cl, "source:last-bytes-with-EOF")
+		}
+		j := h.NewJitter(s.Src, 0)
+		dopts = &h.DiffOpts{WrapPool: func(p lake.Pool) lake.Pool { return &h.JitterPool{Pool: p, J: j} }}
+	}
+	df, err := h.Diff(od, nd, s.Comp, dopts)
 	if err != nil {
 		if s.Comp.Algo == 2 && (s.Comp.Q < -2 || s.Comp.Q > 9) {
 			return h.Result{Skip: "compressor rejects this quality (allowed by the statement)"}
@@ -97,7 +112,11 @@ func check(s Spec) h.Result {
 var prop = h.Prop[Spec]{
 	ID: "C01", Name: "roundtrip",
 	Gen: func(t *rapid.T) Spec {
-		return Spec{Pair: h.GenPair(t, h.GenOpts{KindChange: true, Large: true}), Comp: GenComp(t)}
+		s := Spec{Pair: h.GenPair(t, h.GenOpts{KindChange: true, Large: true}), Comp: GenComp(t)}
+		if rapid.IntRange(0, 2).Draw(t, "sliced-source") == 0 {
+			s.Src = rapid.SliceOfN(rapid.Byte(), 1, 12).Draw(t, "src-jitter")
+		}
+		return s
 	},
 	Check: check,
 }
